@@ -159,6 +159,20 @@ func collect(v *Verifier, p string, only string) ([]*FuncReport, []*Obligation) 
 		alsoLemmas = append(alsoLemmas, &Lemma{Name: "pred:" + n + "/also", PkgPath: pr.PkgPath, Params: pr.Params, Mode: ModeInt, Props: props,
 			Requires: []*Clause{{Text: n + " body", Expr: pr.Body}}, Ensures: []*Clause{{Text: n + " also-part", Expr: pr.Also}}})
 	}
+	// monitors whose two-state transitions are used as rely conditions: they must be reflexive and
+	// transitive (checked over arbitrary states, no code involved)
+	for _, m := range v.db.Monitors {
+		if len(m.Transitions) == 0 || (p != "" && !hasProp(m.Props, p)) {
+			continue
+		}
+		if only != "" && !strings.Contains("rely:"+m.TypeName, only) {
+			continue
+		}
+		rep := v.verifyRely(m)
+		rep.Obls = splitObligations(rep.Obls)
+		reps = append(reps, rep)
+		obls = append(obls, rep.Obls...)
+	}
 	for _, l := range append(alsoLemmas, v.db.Lemmas...) {
 		if only != "" && !strings.Contains(l.Name, only) {
 			continue
